@@ -229,6 +229,17 @@ def install(w):
             return VFunc(None, recv=v, builtin="leaf.coerce_input_value", name=attr)
         if attr == "coerce_output_value":
             return VFunc(None, recv=v, builtin="leaf.coerce_output_value", name=attr)
+        if attr in ("coerce_input_literal", "parse_literal", "parse_value", "serialize",
+                    "value_to_literal"):
+            # user supplied (or default) callables of a leaf type; coerce_input_literal may be None
+            from pyvc.sym import atom
+            has = z3.Function("leaf_has_" + attr, TyS, sym.B)(v.t)
+            fn = z3.Function("leaf_fn_" + attr, TyS, ValS)(v.t)
+            it.sadd(z3.Implies(G.tkind(v.t) == G.K["ENUM"], has))   # enums always have one
+            if attr in ("coerce_input_literal", "value_to_literal") and not it.decide(has):
+                return atom(None)
+            it.sadd(sym.tag(fn) == T["other"])
+            return VDyn(fn)
         return prev_type_attr(it, v, attr, node)
     w.type_attr = type_attr
 
